@@ -566,8 +566,12 @@ def numeric_trace(rng, name, nassign=3):
     ev = []
     for step in range(nassign + 1):
         if step:
-            for pname, fn in draws.items():
-                val = fn(rng)
+            # all parameters, or only one of them (the others keep their values: what depends on the assigned one through
+            # the graph must follow, nothing else may be needed to get there)
+            names = list(draws)
+            chosen = names if step % 2 == 1 or len(names) == 1 else [names[(step // 2) % len(names)]]
+            for pname in chosen:
+                val = draws[pname](rng)
                 model.vars[pname].value = val
                 alt.vars[pname].value = val
         vals = {p: model.vars[p].value for p in draws}
